@@ -138,6 +138,18 @@ pub struct Scenario {
     pub signers: Vec<KeySpec>,
     pub verifiers: Vec<VerifierSpec>,
     pub events: Vec<Event>,
+    /// when set, the adversary applies exactly this fault instead of its whole table
+    #[serde(default)]
+    pub focus: Option<Focus>,
+}
+
+/// one fault of the adversary's table: operator, victim token and second token, both named by
+/// the event that created them
+#[derive(Clone, Debug, PartialEq, Eq, Serialize, Deserialize)]
+pub struct Focus {
+    pub victim: usize,
+    pub aux: Option<usize>,
+    pub op: crate::faults::FaultOp,
 }
 
 // ---------------------------------------------------------------------------------------------
@@ -429,6 +441,7 @@ pub fn generate(seed: u64, profile: &Profile) -> Scenario {
         signers,
         verifiers,
         events,
+        focus: None,
     }
 }
 
@@ -507,10 +520,14 @@ pub struct Violation {
     pub class: String,
     pub event: Option<usize>,
     pub detail: String,
+    /// for violations found by the adversary's sweep: the single fault that reproduces it
+    #[serde(default)]
+    pub focus: Option<Focus>,
 }
 
 #[derive(Clone, Debug, Default)]
 pub struct Monitors {
+    pub c01: bool,
     pub c02: bool,
     pub c03: bool,
     pub c04: bool,
@@ -529,6 +546,7 @@ impl Monitors {
             ..Default::default()
         };
         match p {
+            "C01" => m.c01 = true,
             "C02" => m.c02 = true,
             "C03" => m.c03 = true,
             "C04" => {
@@ -620,6 +638,7 @@ impl<'a> Run<'a> {
             class: class.to_string(),
             event: Some(self.cur),
             detail,
+            focus: None,
         });
     }
 
@@ -651,6 +670,10 @@ impl<'a> Run<'a> {
         for (i, ev) in self.scn.events.iter().enumerate() {
             self.cur = i;
             self.step(ev);
+        }
+        self.cur = self.scn.events.len();
+        if self.mon.c01 || self.mon.c15 || self.mon.c08 {
+            self.fault_sweep();
         }
     }
 
